@@ -424,6 +424,16 @@ class World:
         return {'root': self.root, 'el': {u: proj_elem(self.el[u], self.tb) for u in self.order}}
 
 
+ITER_OF = {T_ELEMENT: 'iter_elem', T_INT: 'iter_int', T_FLOAT: 'iter_float', T_BOOL: 'iter_bool', T_STRING: 'iter_str',
+           T_BINARY: 'iter_bytes', T_TIME: 'iter_time', T_COLOR: 'iter_color', T_VEC2: 'iter_vec2', T_VEC3: 'iter_vec3',
+           T_VEC4: 'iter_vec4', T_ANGLE: 'iter_angle', T_QUAT: 'iter_quat', T_MATRIX: 'iter_mat'}
+
+
+def attr_values(a: Attribute) -> list:
+    """The values of an attribute (one for a scalar) through its public typed iterator of its own type."""
+    return list(getattr(a, ITER_OF[IND_OF[a.type]])())
+
+
 def proj_ref(e: Element, tb: Table) -> dict:
     if e is NULL or e.is_null:
         return {'k': 'null', 'u': ''}
@@ -438,7 +448,7 @@ def proj_elem(e: Element, tb: Table) -> dict:
         if key == 'name':
             continue
         t = IND_OF[a.type]
-        raw = a._value if isinstance(a._value, list) else [a._value]
+        raw = attr_values(a)
         if t == T_ELEMENT:
             v = [proj_ref(x, tb) for x in raw]
         else:
@@ -464,7 +474,7 @@ def proj_graph(root: Element, tb: Table) -> dict:
         el[sym] = proj_elem(e, tb)
         for key, a in e.items():
             if a.type is ValueType.ELEMENT:
-                for x in (a._value if isinstance(a._value, list) else [a._value]):
+                for x in attr_values(a):
                     if not isinstance(x, StubElement):
                         todo.append(x)
     return {'root': seen[id(root)], 'el': el}
@@ -983,9 +993,9 @@ def elem_proj(e: Element) -> dict:
             continue
         if a.name == 'subkeys' and a.type is ValueType.ELEMENT and a.is_array:
             has_sub = True
-            sub = [elem_proj(x) for x in a._value]
+            sub = [elem_proj(x) for x in a.iter_elem()]
         else:
-            attrs.append({'n': a.name, 'val': a._value if isinstance(a._value, str) else repr(a._value)})
+            attrs.append({'n': a.name, 'val': a.val_str if a.type is ValueType.STRING and not a.is_array else repr(attr_values(a))})
     return {'type': e.type, 'name': e.name, 'attrs': attrs, 'hasSub': has_sub, 'sub': sub}
 
 
